@@ -162,6 +162,33 @@ func classesOf(kind string) []string {
 // item creates a credential item for chain position pos (element e) of the given kind/class at one of
 // the sources the element reads.
 func (g *reqGen) item(e elem, pos int, kind, class string, src source) placement {
+	size := ""
+	if g.rng.IntN(12) == 0 {
+		size = g.pickSize()
+	}
+	return g.sizedItem(e, pos, kind, class, src, size)
+}
+
+// pickSize: 4 KiB and 8 KiB twice as often as 64 KiB.
+func (g *reqGen) pickSize() string {
+	return []string{"4KiB", "4KiB", "8KiB", "8KiB", "64KiB"}[g.rng.IntN(5)]
+}
+
+// statusClass: an "endpoint answers with a status code" class for credentials of the kind (meta: the failing endpoint of
+// a JWT's tenant may be the metadata endpoint as well as the JWKS endpoint).
+func (g *reqGen) statusClass(kind string, meta bool) string {
+	code := fmt.Sprint(statusCodes[g.rng.IntN(len(statusCodes))])
+	switch {
+	case kind == "jwt" && meta && g.rng.IntN(2) == 0:
+		return "metahttp" + code
+	case kind == "jwt":
+		return "jwkshttp" + code
+	}
+	return "http" + code
+}
+
+// sizedItem: as item, the value padded to just above the named size ("" = short).
+func (g *reqGen) sizedItem(e elem, pos int, kind, class string, src source, size string) placement {
 	user, pass := e.basicUser()
 	if e.proto().Type != "basic" {
 		user, pass = basicUsers[0].User, basicUsers[0].Pass
@@ -169,8 +196,15 @@ func (g *reqGen) item(e elem, pos int, kind, class string, src source) placement
 	if class == "blank" && (src.Kind == "header" || src.Kind == "cookie") {
 		class = "plain" // a header/cookie value of blanks only does not survive HTTP parsing
 	}
-	v := g.m.mint(kind, class, g.sub(), user, pass)
-	p := placement{Slot: src.slot(), Scheme: src.Scheme, Value: v, Kind: kind, Class: class, For: pos}
+	minLen := 0
+	if size != "" {
+		minLen = sizes[size] + 100 + g.rng.IntN(200)
+	}
+	v := g.m.mintSized(kind, class, g.sub(), user, pass, minLen)
+	if len(v) < minLen {
+		size = "" // the kind/class leaves no room for padding
+	}
+	p := placement{Slot: src.slot(), Scheme: src.Scheme, Value: v, Kind: kind, Class: class, Size: size, For: pos}
 	if src.Kind == "header" && src.Scheme != "" && g.rng.IntN(4) == 0 {
 		// more than one blank between scheme and credentials
 		p.Sep = []string{"  ", "   "}[g.rng.IntN(2)]
@@ -216,6 +250,9 @@ func (g *reqGen) credPositions(c chain) []int {
 
 func (g *reqGen) rejectClass(kind string) string {
 	cl := classesOf(kind)
+	if (kind == "jwt" || kind == "opaque" || kind == "sess") && g.rng.IntN(6) == 0 {
+		return g.statusClass(kind, g.rng.IntN(2) == 0)
+	}
 	for {
 		c := cl[g.rng.IntN(len(cl))]
 		if classGroup(kind, c) != "valid" {
@@ -300,6 +337,37 @@ func (g *reqGen) requests(c chain, n int) []lreq {
 			add(lreq{Recipe: "single-invalid", Items: []placement{g.item(e, p, "opaque", g.anyClass("opaque"), g.pickSource(e))}})
 		}
 	}
+	// the remote system an authenticator presents the credentials to (identity, introspection, JWKS, metadata endpoint)
+	// answers with a status code instead of a usable document: found, presented, not validated
+	for _, p := range ps {
+		e := c.Elems[p]
+		t := e.proto().Type
+		if t == "basic" {
+			continue
+		}
+		k := nativeKind[t]
+		if t == "intro" && e.proto().Meta && g.rng.IntN(2) == 0 {
+			k = "jwt" // the tenant of a JWT formatted access token is discovered through its issuer
+		}
+		add(lreq{Recipe: "single-endpoint-status", Items: []placement{g.sizedItem(e, p, k, g.statusClass(k, false), g.pickSource(e), "")}})
+		if e.proto().Meta { // the tenant of a JWT is discovered through its issuer: the metadata endpoint is the one that fails
+			code := statusCodes[g.rng.IntN(len(statusCodes))]
+			add(lreq{Recipe: "single-endpoint-status", Items: []placement{g.sizedItem(e, p, "jwt", fmt.Sprintf("metahttp%d", code), g.pickSource(e), "")}})
+		}
+	}
+	// credentials of 4 KiB, 8 KiB, 64 KiB: a valid and a rejected one at any position and source
+	for _, class := range []string{"valid", ""} {
+		p := ps[g.rng.IntN(len(ps))]
+		e := c.Elems[p]
+		k := nativeKind[e.proto().Type]
+		recipe := "large-valid"
+		if class == "" {
+			class, recipe = g.rejectClass(k), "large-invalid"
+		}
+		if it := g.sizedItem(e, p, k, class, g.pickSource(e), g.pickSize()); it.Size != "" {
+			add(lreq{Recipe: recipe, Items: []placement{it}})
+		}
+	}
 	for tries := 0; len(out) < n && tries < n*20; tries++ {
 		p := ps[g.rng.IntN(len(ps))]
 		e := c.Elems[p]
@@ -348,6 +416,33 @@ func (g *reqGen) requests(c chain, n int) []lreq {
 			}
 			add(lreq{Recipe: "irrelevant", Items: items})
 		}
+	}
+	return out
+}
+
+// hostile: the catalogue of one chain for the order-sensitive part of the workload: for every authenticator that reads
+// credentials every class of its native kind (the valid ones, every way to be rejected, every way its remote system can
+// fail), a remote system answering with a status code, and one value of every foreign kind, each at one of its sources.
+func (g *reqGen) hostile(c chain) []lreq {
+	out := []lreq{{Recipe: "none"}}
+	for _, p := range g.credPositions(c) {
+		e := c.Elems[p]
+		k := nativeKind[e.proto().Type]
+		for _, cl := range classesOf(k) {
+			out = append(out, lreq{Recipe: "sequence-native", Items: []placement{g.item(e, p, k, cl, g.pickSource(e))}})
+		}
+		if k != "basic" {
+			out = append(out, lreq{Recipe: "sequence-native", Items: []placement{g.item(e, p, k, g.statusClass(k, e.proto().Meta), g.pickSource(e))}})
+		}
+		for _, fk := range []string{"jwt", "opaque", "sess", "junk"} {
+			if fk != k {
+				cl := classesOf(fk)[g.rng.IntN(len(classesOf(fk)))]
+				out = append(out, lreq{Recipe: "sequence-foreign-kind", Items: []placement{g.item(e, p, fk, cl, g.pickSource(e))}})
+			}
+		}
+	}
+	for i := range out {
+		g.dress(&out[i])
 	}
 	return out
 }
